@@ -44,6 +44,31 @@ def run(tier, seed):
         if r.violation:
             mc_viol.append({"what": "model: " + r.violation, "replay": v.save_replay(PROP.lower(), "mc.out", r.out[-5000:]), "key": "mc"})
     viol, st, traces = ce.run_and_validate(PROP, fxv, rd, jobs_for(rng, tier), INV)
+    # a crash DURING a recovery is a crash too: a recovery with more than 1024 non-adjacent repairs (journalled in
+    # chunks), expired newest generations at lower sectors than their unretired older ones; every durable state of
+    # that recovery is recovered again by the real code and must expose no older generation (RealWindow)
+    import os
+    import shutil
+    shm = v.shm_dir("c03chunk")
+    try:
+        ct = os.path.join(rd, "chunked.ndjson")
+        rc, so, se = v.run_cmd([fxv, "chunkrec", "--dir", shm, "--out", ct, "--keys", "1100", "--cc", "3"], timeout=600)
+    finally:
+        shutil.rmtree(shm, ignore_errors=True)
+    if rc != 0:
+        raise v.ToolError("fxv chunkrec failed: " + se[-400:])
+    cr = ce.validate(rd, ct, ["RealOpens", "RealWindow", "RealCount"], timeout=3000)
+    st["states"] += cr.distinct
+    st["transitions"] += cr.generated
+    if cr.violation and cr.violation.startswith("invariant"):
+        what, key, idx = ce.classify_violation(cr, ct)
+        keep = v.save_replay("c03", "chunked.args.json", {"cmd": "fxv chunkrec --keys 1100", "info": so[-400:], "what": what[:600]})
+        viol.append({"what": "crash between the journal chunks of a recovery: " + what[:500], "replay": keep,
+                     "key": "chunked-retirement " + cr.violation})
+    elif cr.violation:
+        raise v.ToolError("TraceDisk(chunked): " + cr.out[-400:])
+    else:
+        v.tlc_ok(cr, "TraceDisk(chunked)")
     cov = {
         "states": st["states"] + mc_states, "transitions": st["transitions"] + mc_trans, "mc_states": mc_states,
         "traces_validated_against_impl": st["traces"],
